@@ -129,11 +129,16 @@ def run_e2e(sv, k, i, n, res):
     lists = [(r,) for r in rs] + [(a, b) for a in rs[1:12] for b in rs[20:26]] + [('en', 'de', 'x-*'), ('', '*'), ('*', ''), ('', 'en'), ('en', ''), ('*', 'en', ''), ('', '*-*')]
     for li in range(i, len(lists), n):
         ranges = lists[li]
-        for quote in ('"', 'bare'):
+        for quote in ('"', 'bare', 'comments'):
             if quote == 'bare':
                 if any(not r or '*' in r or r[0].isdigit() for r in ranges):
                     continue
                 text = 'p:lang(' + ', '.join(ranges) + ')'
+            elif quote == 'comments':
+                # comments that contain range-shaped text (identifiers, quoted strings, a quoted '*') on both sides of every comma and at both ends
+                if len(ranges) < 2 and li % 7:
+                    continue
+                text = 'p:lang(/* zz */' + ' /* "a", de, \'*\' */ , /* x-y */ '.join(S.css_string(r) for r in ranges) + ' /* ,"en" */)'
             else:
                 text = 'p:lang(' + ', '.join(S.css_string(r) for r in ranges) + ')'
             try:
